@@ -38,6 +38,8 @@ fn setup(ctx: &mut Ctx) {
     ctx.floor("typed:notes-segment", 100);
     ctx.floor("typed:symbol-table", 200);
     ctx.floor("typed:dynamic", 100);
+    ctx.floor("typed:symbol-version-table", 100);
+    ctx.floor("typed:symbol-version-table:must-fail", 10);
     ctx.floor("fabricated-header", 2000);
     ctx.floor("strtab-entry-pointer", 1000);
 }
@@ -330,6 +332,59 @@ fn judge_tables(ctx: &mut Ctx, f: &ElfBytes<'_, AnyEndian>, buf: &[u8], enc: Enc
                 return false;
             }
             _ => {}
+        }
+    }
+    // symbol-version table: every part must be the range its own header designates (versym, verneed and the
+    // string table verneed links to, verdef and the string table *verdef* links to)
+    let count_of = |ty: u32| (0..r.shnum()).filter(|i| r.shdr(*i).map(|s| s.get("sh_type") == ty as u64).unwrap_or(false)).count();
+    if count_of(k::SHT_GNU_VERSYM) == 1 && count_of(k::SHT_GNU_VERNEED) <= 1 && count_of(k::SHT_GNU_VERDEF) <= 1 {
+        use elf::gnu_symver::{SymbolVersionTable, VerDefIterator, VerNeedIterator, VersionIndexTable};
+        use elf::string_table::StringTable;
+        let (_, vs) = r.first_section_of_type(k::SHT_GNU_VERSYM).unwrap();
+        let class = f.ehdr.class;
+        let e = f.ehdr.endianness;
+        let mut all_fit = vs.get("sh_entsize") == 2;
+        let vsr = r.sec_range(&vs);
+        all_fit &= vsr.is_some();
+        let part = |ty: u32| -> Option<Option<((usize, usize), (usize, usize), u64)>> {
+            // None = must fail; Some(None) = section absent; Some(Some(..)) = (range, strtab range, count)
+            match r.first_section_of_type(ty) {
+                None => Some(None),
+                Some((_, sh)) => {
+                    let rg = r.sec_range(&sh)?;
+                    let link = r.shdr(sh.get("sh_link") as usize)?;
+                    let sr = r.sec_range(&link)?;
+                    Some(Some((rg, sr, sh.get("sh_info"))))
+                }
+            }
+        };
+        let needs = part(k::SHT_GNU_VERNEED);
+        let defs = part(k::SHT_GNU_VERDEF);
+        all_fit &= needs.is_some() && defs.is_some();
+        ctx.eval();
+        match (all_fit, f.symbol_version_table()) {
+            (true, Ok(Some(t))) => {
+                ctx.count("typed:symbol-version-table");
+                let (vo, vl) = vsr.unwrap();
+                let nt = needs.unwrap().map(|((o, l), (so, sl), c)| (VerNeedIterator::new(e, class, c, 0, &buf[o..o + l]), StringTable::new(&buf[so..so + sl])));
+                let dt = defs.unwrap().map(|((o, l), (so, sl), c)| (VerDefIterator::new(e, class, c, 0, &buf[o..o + l]), StringTable::new(&buf[so..so + sl])));
+                let want = SymbolVersionTable::new(VersionIndexTable::new(e, class, &buf[vo..vo + vl]), nt, dt);
+                let n = vl / 2;
+                let (a, b) = (crate::observe::dump_symver(&t, n), crate::observe::dump_symver(&want, n));
+                if a != b {
+                    ctx.violation("symbol_version_table:content", format!("{what}: the version table differs from one built over the header-designated ranges (versym [{vo:#x},+{vl:#x})): got {} expected {}", a.chars().take(240).collect::<String>(), b.chars().take(240).collect::<String>()));
+                    return false;
+                }
+            }
+            (true, other) => {
+                ctx.violation("symbol_version_table:spurious-failure", format!("{what}: every version section and linked string table fits, but symbol_version_table() returned {:?}", other.map(|o| o.is_some())));
+                return false;
+            }
+            (false, Ok(Some(_))) => {
+                ctx.violation("symbol_version_table:no-error", format!("{what}: a version section or the string table it links to does not fit in the file (or versym entsize is wrong), but symbol_version_table() succeeded"));
+                return false;
+            }
+            _ => ctx.count("typed:symbol-version-table:must-fail"),
         }
     }
     if let Some((_, sh)) = r.first_section_of_type(k::SHT_DYNAMIC) {
